@@ -33,6 +33,19 @@ VARLEN = {}
 _fresh = itertools.count()
 
 
+def split_facts(F, c):
+    """(F + c, F + not c), with provable symbol bounds made explicit."""
+    F1 = F.copy()
+    F1.add_cond(c)
+    F0 = F.copy()
+    F0.add_cond(neg_cond(c))
+    if c[0] in ("ge", "lt", "eq", "ne"):
+        syms = c[1].symbols()
+        F1.saturate(syms)
+        F0.saturate(syms)
+    return F1, F0
+
+
 def fresh(prefix="$j"):
     return "%s%d" % (prefix, next(_fresh))
 
@@ -128,7 +141,16 @@ def asub(a, venv, lenv, F):
     if k == "ib":
         return ("atom", ("ib", a[1], a[2], isubst(a[3], venv, lenv, F)))
     if k == "rec":
-        return ("atom", ("rec", a[1], a[2], lsub(a[3], lenv)))
+        idx = lsub(a[3], lenv)
+        if lenv and lenv.get("__unfold__"):
+            r = REC[a[1]]
+            if a[2] == "out":
+                return ("blk", bsubst(r["out"], {"$rs": rec_state(a[1], idx, F)}, {"$ri": idx}, F))
+            if F.prove_eq(idx):
+                return ("blk", r["init"])
+            if F.prove_ge(idx - 1):
+                return ("blk", bsubst(r["st"], {"$rs": rec_state(a[1], idx - 1, F)}, {"$ri": idx - 1}, F))
+        return ("atom", ("rec", a[1], a[2], idx))
     return ("atom", a)
 
 
@@ -178,7 +200,18 @@ def bsubst(b, venv, lenv, F):
             out = out + (("m", var, lo, hi, el, t),)
         elif k == "i":
             c = csub(p[1], lenv)
-            out = out + (("i", c, lsub(p[2], lenv), bsubst(p[3], venv, lenv, F), bsubst(p[4], venv, lenv, F)),)
+            if F.prove_cond(c):
+                out = out + bsubst(p[3], venv, lenv, F)
+            elif F.refute_cond(c):
+                out = out + bsubst(p[4], venv, lenv, F)
+            else:
+                F1, F0 = split_facts(F, c)
+                if F1.inconsistent():
+                    out = out + bsubst(p[4], venv, lenv, F0)
+                elif F0.inconsistent():
+                    out = out + bsubst(p[3], venv, lenv, F1)
+                else:
+                    out = out + (("i", c, lsub(p[2], lenv), bsubst(p[3], venv, lenv, F1), bsubst(p[4], venv, lenv, F0)),)
     return bnorm(out, F)
 
 
@@ -343,10 +376,7 @@ def piece_slice(p, delta, ln, F):
     if k == "x":
         return (xpiece(ln, tuple((a, o + delta) for a, o in p[2])),)
     if k == "i":
-        F1 = F.copy()
-        F1.add_cond(p[1])
-        F0 = F.copy()
-        F0.add_cond(neg_cond(p[1]))
+        F1, F0 = split_facts(F, p[1])
         if F1.inconsistent():
             return bslice(p[4], delta, ln, F0)
         if F0.inconsistent():
@@ -442,10 +472,7 @@ def bslice(b, lo, ln, F, depth=0):
         if depth >= 4:
             raise
         c = ("lt", lin(e.p) - lin(e.x))
-        F1 = F.copy()
-        F1.add_cond(c)
-        F2 = F.copy()
-        F2.add_cond(neg_cond(c))
+        F1, F2 = split_facts(F, c)
         if F1.inconsistent():
             return bslice(b, lo, ln, F2, depth + 1)
         if F2.inconsistent():
@@ -685,10 +712,7 @@ def bnorm(b, F):
             elif bequal_syn(p[3], p[4]):
                 out.extend(p[3])
             else:
-                F1 = F.copy()
-                F1.add_cond(c)
-                F0 = F.copy()
-                F0.add_cond(neg_cond(c))
+                F1, F0 = split_facts(F, c)
                 if F1.inconsistent():
                     out.extend(bnorm(p[4], F0))
                 elif F0.inconsistent():
@@ -733,10 +757,7 @@ def _split_map_ite(p, F):
     v = Lin.sym(var)
     if var not in l.symbols():
         # condition does not depend on the index: hoist it out of the map
-        F1 = F.copy()
-        F1.add_cond(c)
-        F0 = F.copy()
-        F0.add_cond(neg_cond(c))
+        F1, F0 = split_facts(F, c)
         if F1.inconsistent() or F0.inconsistent():
             return None
         Fa = F1.copy()
@@ -862,10 +883,19 @@ def _xor_aligned(pa, pb, ln, F):
         return _xor_map_plain(p, q, F)
     if q[0] == "m" and p[0] == "x":
         return _xor_map_plain(q, p, F)
+    if q[0] == "i" and p[0] != "i":
+        p, q = q, p
     if p[0] == "i":
-        return (("i", p[1], ln, bxor(p[3], (q,), F), bxor(p[4], (q,), F)),)
-    if q[0] == "i":
-        return (("i", q[1], ln, bxor(q[3], (p,), F), bxor(q[4], (p,), F)),)
+        F1, F0 = split_facts(F, p[1])
+        if F1.inconsistent():
+            return bxor(p[4], (q,), F0)
+        if F0.inconsistent():
+            return bxor(p[3], (q,), F1)
+        a = bxor(p[3], (q,), F1)
+        b = bxor(p[4], (q,), F0)
+        if a == b:
+            return a
+        return (("i", p[1], ln, a, b),)
     raise Undecided("xor of %s and %s" % (p[0], q[0]))
 
 
@@ -880,7 +910,31 @@ def _xor_map_plain(m, x, F):
 
 
 # ------------------------------------------------------------------ equality
+def unfold_recs(b, F):
+    """rewrite every recurrence atom by one step of its definition."""
+    return bsubst(b, None, {"__unfold__": True}, F)
+
+
+def has_rec(b):
+    return "('rec'," in repr(b)
+
+
 def bequal(a, b, F):
+    if _bequal(a, b, F):
+        return True
+    if has_rec(a) or has_rec(b):
+        try:
+            a1, b1 = unfold_recs(a, F), unfold_recs(b, F)
+            if _bequal(a1, b1, F):
+                return True
+            a2, b2 = unfold_recs(a1, F), unfold_recs(b1, F)
+            return _bequal(a2, b2, F)
+        except Undecided:
+            return False
+    return False
+
+
+def _bequal(a, b, F):
     try:
         a = bnorm(a, F)
         b = bnorm(b, F)
@@ -939,16 +993,10 @@ def _pieces_equal(pa, pb, ln, F):
         return bequal(binst(p[5], p[1], v + p[2], F2), binst(q[5], q[1], v + q[2], F2), F2)
     if p[0] == "i" and q[0] == "i":
         if p[1] == q[1]:
-            F1 = F.copy()
-            F1.add_cond(p[1])
-            F0 = F.copy()
-            F0.add_cond(neg_cond(p[1]))
+            F1, F0 = split_facts(F, p[1])
             return (F1.inconsistent() or bequal(p[3], q[3], F1)) and (F0.inconsistent() or bequal(p[4], q[4], F0))
     if p[0] == "i":
-        F1 = F.copy()
-        F1.add_cond(p[1])
-        F0 = F.copy()
-        F0.add_cond(neg_cond(p[1]))
+        F1, F0 = split_facts(F, p[1])
         return (F1.inconsistent() or bequal(p[3], (q,), F1)) and (F0.inconsistent() or bequal(p[4], (q,), F0))
     if q[0] == "i":
         return _pieces_equal(pb, pa, ln, F)
